@@ -82,6 +82,13 @@ SWAPS = [
      "use tokio::io::{AsyncReadExt, AsyncSeekExt, AsyncWriteExt, BufReader, BufWriter};",
      f"use {M}::fs::io_model::{{AsyncReadExt, AsyncSeekExt, AsyncWriteExt, BufReader, BufWriter}};\n#[cfg(kani)]\nuse {M}::shim as tokio;"),
     ("server/src/state/file.rs", "use tokio::io::{AsyncReadExt, BufReader};", f"use {M}::fs::io_model::{{AsyncReadExt, BufReader}};"),
+    (S + "segments/logs/log_reader.rs", "use bytes::BytesMut;", f"use {M}::bytesmut::BytesMut;"),
+    (S + "batching/batch_accumulator.rs", "use bytes::BytesMut;", f"use {M}::bytesmut::BytesMut;"),
+    (S + "models/messages.rs", "use bytes::{BufMut, Bytes, BytesMut};", f"use bytes::Bytes;\n#[cfg(kani)]\nuse {M}::bytesmut::{{BufMut, BytesMut}};"),
+    ("server/src/state/command.rs", "use bytes::{Buf, BufMut, Bytes, BytesMut};", f"use bytes::{{Buf, Bytes}};\n#[cfg(kani)]\nuse {M}::bytesmut::{{BufMut, BytesMut}};"),
+    ("server/src/state/entry.rs", "use bytes::{Buf, BufMut, Bytes, BytesMut};", f"use bytes::{{Buf, Bytes}};\n#[cfg(kani)]\nuse {M}::bytesmut::{{BufMut, BytesMut}};"),
+    ("server/src/state/file.rs", "use bytes::{Buf, BufMut, Bytes, BytesMut};", f"use bytes::{{Buf, Bytes}};\n#[cfg(kani)]\nuse {M}::bytesmut::{{BufMut, BytesMut}};"),
+    ("server/src/state/models.rs", "use bytes::{BufMut, Bytes, BytesMut};", f"use bytes::Bytes;\n#[cfg(kani)]\nuse {M}::bytesmut::{{BufMut, BytesMut}};"),
     (S + "deduplication/message_deduplicator.rs", "use moka::future::Cache;", f"use {M}::cache::Cache;"),
 ]
 
